@@ -170,6 +170,9 @@ class ModSpec:
     ext_expr: object = None
     # hook tried first on every statement: (fn, stmt, env, lines) -> True when it translated the statement itself
     stmt_hook: object = None
+    # hook on `with` / `async with` statements: (fn, stmt, env, lines) -> None | ("rewrite", [stmts]) | ("wrap", [exit lines]) (the
+    # enter lines are appended to `lines` by the hook)
+    with_hook: object = None
     # record-like classes of the repository handled as Lean structures: name -> {field: type}; declared in state_decl
     structs: dict = dataclasses.field(default_factory=dict)
     # qualified function name -> locals whose in-place attribute assignment may be translated as a copy although the object is
@@ -508,11 +511,16 @@ class Fn:
     def run(self):
         node, fs, tr = self.node, self.fs, self.tr
         a = node.args
-        if a.vararg or a.kwarg or a.posonlyargs:
-            raise Unsupported(f"{fs.qual}: *args/**kwargs")
+        if a.posonlyargs:
+            raise Unsupported(f"{fs.qual}: positional-only parameters")
+        for x in (a.vararg, a.kwarg):
+            # `*args` / `**kwargs` are ordinary parameters of the type the translation spec gives them (a value list / a list of
+            # named values); they can only be handed on whole
+            if x is not None and not (fs.params and x.arg in fs.params):
+                raise Unsupported(f"{fs.qual}: *args/**kwargs")
         params = []
         env = {}
-        names = [x for x in a.args] + [x for x in a.kwonlyargs]
+        names = [x for x in a.args] + ([a.vararg] if a.vararg else []) + [x for x in a.kwonlyargs] + ([a.kwarg] if a.kwarg else [])
         defaults = {}
         nd = len(a.defaults)
         for i, d in enumerate(a.defaults):
@@ -581,6 +589,8 @@ class Fn:
             return [f"pure (Sum.inr {self.tuple_term(tail['vars'])})"]
         if k == "tryret":
             return [f"pure (Sum.inr {self.tuple_term(tail['vars'])})"]
+        if k == "retonly":
+            raise Unsupported(f"{self.fs.qual}: internal: a block taken as never falling through falls through")
         raise AssertionError(k)
 
     def tuple_term(self, names):
@@ -616,7 +626,7 @@ class Fn:
                 for blk in [s.body, s.orelse, s.finalbody] + [h.body for h in s.handlers]:
                     if Fn.has_jump(blk, in_loop):
                         return True
-            elif isinstance(s, ast.With):
+            elif isinstance(s, (ast.With, ast.AsyncWith)):
                 if Fn.has_jump(s.body, in_loop):
                     return True
         return False
@@ -638,6 +648,10 @@ class Fn:
             return True
         if isinstance(s, ast.If):
             return bool(s.orelse) and Fn.terminates(s.body) and Fn.terminates(s.orelse)
+        if isinstance(s, ast.Try) and s.finalbody and not s.handlers and not s.orelse:
+            return Fn.terminates(s.body)
+        if isinstance(s, ast.AsyncWith):
+            return Fn.terminates(s.body)
         return False
 
     @staticmethod
@@ -882,9 +896,73 @@ class Fn:
                 L.append("  ) [" + ", ".join(f'"{c}"' for c in classes) + "] (pure ())")
                 i += 1
                 continue
+            if isinstance(s, (ast.With, ast.AsyncWith)) and getattr(self.tr.spec, "with_hook", None) is not None and self.monad == "M":
+                if isinstance(s, ast.AsyncWith) and not self.fs.allow_async:
+                    raise Unsupported(f"{self.fs.qual}: async with")
+                r = self.tr.spec.with_hook(self, s, env, L)
+                if r is not None and r[0] == "rewrite":
+                    # the statement stands for these statements (the hook says which construct it recognised)
+                    stmts = list(stmts[:i]) + list(r[1]) + list(rest)
+                    continue
+                if r is not None and r[0] == "wrap":
+                    # enter (already appended to L by the hook); the body; the exit lines on every way out of the body
+                    exit_lines = r[1]
+                    self.finally_stmt(s.body, lambda env_, L_: L_.extend(exit_lines), env, L, tail, rest, rest_after, f"with at line {s.lineno}")
+                    return L, False
             raise Unsupported(f"{self.fs.qual}: statement {type(s).__name__} at line {s.lineno}")
         L.extend(self.tail_fall(tail, env))
         return L, True
+
+    def finally_stmt(self, body, emit_fin, env, L, tail, rest, rest_after, what):
+        """`try: body finally: fin` (and context managers: fin = the exit): the body's outcome - fell through, returned, raised - is
+        kept as a value, the finaliser runs (what it raises replaces the outcome), then the outcome takes effect.  Consumes the
+        rest of the enclosing block."""
+        if self.monad != "M":
+            raise Unsupported(f"{self.fs.qual}: {what} in a pure function")
+        if any(isinstance(n, (ast.Break, ast.Continue)) for b in body for n in ast.walk(b)):
+            raise Unsupported(f"{self.fs.qual}: break/continue inside {what}")
+        ret_in = self.has_return(body)
+        if ret_in and tail["kind"] not in ("fn", "tryret", "retonly"):
+            raise Unsupported(f"{self.fs.qual}: return inside {what} inside a loop or joined branch")
+        never_falls = self.terminates(body)
+        bound = self.assigned(body)
+        later = self.loaded(rest) | self.loaded(rest_after)
+        vars_ = [v for v in bound if v in later or v in env]
+        eb = dict(env)
+        if ret_in and never_falls:
+            kind = {"kind": "retonly"}
+        elif ret_in:
+            kind = {"kind": "tryret", "vars": vars_}
+        else:
+            kind = {"kind": "join", "vars": vars_}
+        lb, _ = self.block(body, eb, kind, [])
+        r = self.tr.fresh("r")
+        L.append(f"let {r} ← PyM.attempt (do")
+        L.extend("    " + x for x in lb)
+        L.append("  )")
+        emit_fin(dict(env), L)
+        L.append(f"match {r} with")
+
+        def ret_line(rv):
+            return f"pure (Sum.inl {rv})" if tail["kind"] == "tryret" else f"pure {rv}"
+        eo = dict(env)
+        for v in vars_:
+            eo[v] = eb[v]
+        rv = self.tr.fresh("rv")
+        if ret_in and never_falls:
+            L.append(f"| .ok {rv} =>")
+            L.append("  " + ret_line(rv))
+        elif ret_in:
+            L.append(f"| .ok (Sum.inl {rv}) =>")
+            L.append("  " + ret_line(rv))
+            L.append(f"| .ok (Sum.inr {self.tuple_pat(vars_)}) =>")
+            lo, _ = self.block(list(rest), eo, tail, rest_after)
+            L.extend("  " + x for x in lo)
+        else:
+            L.append(f"| .ok {self.tuple_pat(vars_)} =>")
+            lo, _ = self.block(list(rest), eo, tail, rest_after)
+            L.extend("  " + x for x in lo)
+        L.append("| .error e_ => PyM.throw e_")
 
     def is_log_guard(self, s: ast.If):
         """`if _LOGGER.isEnabledFor(...):` whose body only builds strings and logs"""
@@ -1239,7 +1317,23 @@ class Fn:
         """two shapes: (A) `try: x, y = next(<generator>)  except StopIteration: <block>`; (B) try/except[/else] whose handler does
         not read names bound in the try body.  Returns True when the rest of the enclosing block has been consumed."""
         if s.finalbody:
-            raise Unsupported(f"{self.fs.qual}: try/finally")
+            if s.handlers or s.orelse:
+                raise Unsupported(f"{self.fs.qual}: try/except/finally")
+            if self.has_jump(s.finalbody):
+                raise Unsupported(f"{self.fs.qual}: return/break/continue inside a finally block")
+            if any(v in self.loaded(s.finalbody) for v in self.assigned(s.body) if v not in env):
+                raise Unsupported(f"{self.fs.qual}: finally block reads a name bound in the try body")
+            if any(v in self.loaded(rest) or v in self.loaded(rest_after) for v in self.assigned(s.finalbody)):
+                raise Unsupported(f"{self.fs.qual}: name bound in a finally block and used later")
+
+            def emit_fin(env_, L_):
+                lf, _ = self.block(s.finalbody, env_, {"kind": "join", "vars": []}, [])
+                # (the block ends with `pure ()`: run it as one action)
+                L_.append("(do")
+                L_.extend("    " + x for x in lf)
+                L_.append("  )")
+            self.finally_stmt(s.body, emit_fin, env, L, tail, rest, rest_after, f"try/finally at line {s.lineno}")
+            return True
         if self.monad != "M":
             raise Unsupported(f"{self.fs.qual}: try in a pure function")
         # ---- shape A
@@ -1508,6 +1602,25 @@ class Fn:
             r = tr.spec.ext_expr(self, node, env, L)
             if r is not None:
                 return r
+        if isinstance(node, ast.Call) and isinstance(node.func, ast.Attribute) and node.func.attr == "get" and isinstance(node.func.value, ast.Dict) \
+                and len(node.args) == 2 and not node.keywords:
+            # {"name": int, ...}.get(key, int): a literal table from strings to integers
+            def _int(n):
+                if isinstance(n, ast.Constant) and isinstance(n.value, int) and not isinstance(n.value, bool):
+                    return n.value
+                if isinstance(n, ast.UnaryOp) and isinstance(n.op, ast.USub) and isinstance(n.operand, ast.Constant) and isinstance(n.operand.value, int):
+                    return -n.operand.value
+                raise Unsupported(f"{self.fs.qual}: literal table value {ast.unparse(n)[:30]}")
+            d = node.func.value
+            if not all(isinstance(k_, ast.Constant) and isinstance(k_.value, str) for k_ in d.keys):
+                raise Unsupported(f"{self.fs.qual}: literal table with non-string keys")
+            if len({k_.value for k_ in d.keys}) != len(d.keys):
+                raise Unsupported(f"{self.fs.qual}: literal table with a repeated key")
+            k, kt = self.ex(node.args[0], env, L)
+            if kt != STR:
+                raise Unsupported(f"{self.fs.qual}: literal table looked up with {kt}")
+            entries = ", ".join(f'("{k_.value}", ({_int(v_)} : Int))' for k_, v_ in zip(d.keys, d.values))
+            return f"((([{entries}] : List (String × Int)).lookup {paren(k)}).getD ({_int(node.args[1])} : Int))", INT
         if isinstance(node, ast.Dict) and not node.keys:
             return "[]", ("emptycoll",)
         if isinstance(node, ast.Attribute):
@@ -1593,6 +1706,16 @@ class Fn:
                         ann_cls = None
                     if ann_cls is type(member) and env.get(left.id) == NAT:
                         return f"(decide ({ident(left.id)} {'=' if op is ast.Is else '≠'} {int(member)}))", BOOL
+            # identity of object references (futures are ids into the heap): `x is y` with x possibly None
+            sub = []
+            a, at = self.ex(left, env, sub)
+            b, bt = self.ex(right, env, sub)
+            if isinstance(bt, tuple) and bt[0] == "ref" and at == opt(bt):
+                L.extend(sub)
+                return (f"({paren(a)} == some {paren(b)})" if op is ast.Is else f"({paren(a)} != some {paren(b)})"), BOOL
+            if isinstance(bt, tuple) and bt[0] == "ref" and at == bt:
+                L.extend(sub)
+                return (f"({paren(a)} == {paren(b)})" if op is ast.Is else f"({paren(a)} != {paren(b)})"), BOOL
             raise Unsupported(f"{self.fs.qual}: `is` comparison {ast.unparse(node)[:60]}")
         if op in (ast.In, ast.NotIn):
             a, at = self.ex(left, env, L)
@@ -2931,8 +3054,175 @@ def protocol_spec() -> ModSpec:
     )
 
 
+# statements of ProtocolHandler.command that only prepare logging (was the semaphore taken when the call started, and since when):
+# pinned by their text, translated to nothing
+CMD_PINNED = {
+    "delayed = False",
+    "send_time = None",
+    "if self._send_semaphore.locked():\n    delayed = True\n    send_time = time.monotonic()\n    LOGGER.debug('Send semaphore is locked, delaying before sending %s(%r, %r)', name, args, kwargs)",
+    "if delayed:\n    LOGGER.debug('Sending command  %s: %s %s after %0.2fs delay', name, args, kwargs, time.monotonic() - send_time)\nelse:\n    LOGGER.debug('Sending command  %s: %s %s', name, args, kwargs)",
+}
+
+
+def command_spec() -> ModSpec:
+    """ProtocolHandler.command / _ezsp_frame / _get_command_priority over the state of ProtocolHandler.__call__ (BV/Py/CmdEnv.lean)"""
+    VALS = ("lean", "Vals")
+    KWVALS = ("lean", "KwVals")
+    SCHEMA = ("lean", "Schema")
+    FUT = ("ref", "PFut")
+
+    def frame_tx(fn, node, env, L):
+        a, at = fn.ex(node.args[0], env, L)
+        if at != STR or len(node.args) != 1:
+            raise Unsupported("_ezsp_frame_tx arguments")
+        tmp = fn.tr.fresh("h")
+        L.append(f"let {tmp} ← frameTx {paren(a)}")
+        return tmp, BYTES
+
+    def send_data(fn, node, env, L):
+        if not fn.awaiting or len(node.args) != 1 or node.keywords:
+            raise Unsupported("send_data not awaited / arguments")
+        a, at = fn.ex(node.args[0], env, L)
+        if at != BYTES:
+            raise Unsupported("send_data of " + str(at))
+        L.append(f"gwSend {paren(a)}")
+        return "()", UNIT
+
+    st = StateSpec(
+        pyclass="ProtocolHandler", lean="Proto",
+        fields={"_seq": ("seq", NAT)},
+        calls={"self._ezsp_frame_tx": frame_tx, "self._gw.send_data": send_data},
+    )
+
+    def whole_args(node, names=("args", "kwargs")):
+        return (len(node.args) >= 1 and isinstance(node.args[-1], ast.Starred) and isinstance(node.args[-1].value, ast.Name)
+                and node.args[-1].value.id == names[0] and len(node.keywords) == 1 and node.keywords[0].arg is None
+                and isinstance(node.keywords[0].value, ast.Name) and node.keywords[0].value.id == names[1])
+
+    def ext(fn, node, env, L):
+        src = ast.unparse(node)
+        if isinstance(node, ast.Subscript):
+            if ast.unparse(node.value) == "self.COMMANDS":
+                k, kt = fn.ex(node.slice, env, L)
+                if kt != STR:
+                    raise Unsupported("COMMANDS[...] with a key of type " + str(kt))
+                tmp = fn.tr.fresh("c")
+                L.append(f"let {tmp} ← cmdByName {paren(k)}")
+                return tmp, tup(NAT, SCHEMA, SCHEMA)
+            if isinstance(node.value, ast.Call) and ast.unparse(node.value.func) == "self._awaiting.get" and ast.unparse(node.slice) == "2" \
+                    and len(node.value.args) == 2 and ast.unparse(node.value.args[1]) == "(None, None, None)":
+                # the third component of the entry under the key, None (the default's third component) without an entry
+                k, kt = fn.ex(node.value.args[0], env, L)
+                if kt != NAT:
+                    raise Unsupported("_awaiting.get key")
+                tmp = fn.tr.fresh("f")
+                L.append(f"let {tmp} ← awaitingFutAt {paren(k)}")
+                return tmp, opt(FUT)
+            return None
+        if isinstance(node, ast.Call):
+            f = ast.unparse(node.func)
+            if f == "isinstance" and len(node.args) == 2 and ast.unparse(node.args[1]) == "dict":
+                a, at = fn.ex(node.args[0], env, L)
+                if at != SCHEMA:
+                    raise Unsupported("isinstance(.., dict) of " + str(at))
+                return f"(schemaIsDict {paren(a)})", BOOL
+            if f == "t.serialize_dict" and len(node.args) == 3 and not node.keywords:
+                xs = [fn.ex(a_, env, L) for a_ in node.args]
+                if [x[1] for x in xs] != [VALS, KWVALS, SCHEMA]:
+                    raise Unsupported("serialize_dict arguments")
+                tmp = fn.tr.fresh("d")
+                L.append(f"let {tmp} ← {fn.lift('serDict ' + ' '.join(paren(x[0]) for x in xs))}")
+                return tmp, BYTES
+            if isinstance(node.func, ast.Attribute) and node.func.attr == "serialize" and not node.args and isinstance(node.func.value, ast.Call) \
+                    and isinstance(node.func.value.func, ast.Name) and env.get(node.func.value.func.id) == SCHEMA:
+                inner = node.func.value
+                if not (len(inner.args) == 1 and whole_args(inner)) or env.get("args") != VALS or env.get("kwargs") != KWVALS:
+                    raise Unsupported("struct schema construction " + src[:60])
+                tmp = fn.tr.fresh("d")
+                L.append(f"let {tmp} ← {fn.lift(f'serStruct args kwargs {ident(inner.func.id)}')}")
+                return tmp, BYTES
+            if f == "self._ezsp_frame":
+                if not (len(node.args) == 2 and whole_args(node)) or env.get("args") != VALS or env.get("kwargs") != KWVALS:
+                    raise Unsupported("_ezsp_frame call shape " + src[:60])
+                a, at = fn.ex(node.args[0], env, L)
+                if at != STR:
+                    raise Unsupported("_ezsp_frame name")
+                tmp = fn.tr.fresh("b")
+                L.append(f"let {tmp} ← ezsp_frame {paren(a)} args kwargs")
+                return tmp, BYTES
+            if src == "asyncio.get_running_loop().create_future()":
+                tmp = fn.tr.fresh("f")
+                L.append(f"let {tmp} ← newFut")
+                return tmp, FUT
+            if f == "__await_timeout__":
+                a, at = fn.ex(node.args[0], env, L)
+                b, bt = fn.ex(node.args[1], env, L)
+                if at != FUT or bt != NAT:
+                    raise Unsupported(f"bounded wait for {at} with {bt}")
+                tmp = fn.tr.fresh("v")
+                L.append(f"let {tmp} ← awaitFuture {paren(a)} {paren(b)}")
+                return tmp, VALS
+        return None
+
+    def stmt_hook(fn, s, env, L):
+        if ast.unparse(s) in CMD_PINNED:
+            return True
+        if isinstance(s, ast.Assign) and len(s.targets) == 1 and isinstance(s.targets[0], ast.Subscript) \
+                and ast.unparse(s.targets[0].value) == "self._awaiting":
+            if not (isinstance(s.value, ast.Tuple) and len(s.value.elts) == 3):
+                raise Unsupported("_awaiting[...] = " + ast.unparse(s.value)[:40])
+            k, kt = fn.ex(s.targets[0].slice, env, L)
+            xs = [fn.ex(e, env, L) for e in s.value.elts]
+            if kt != NAT or [x[1] for x in xs] != [NAT, SCHEMA, FUT]:
+                raise Unsupported("_awaiting entry of types " + str([x[1] for x in xs]))
+            L.append(f"awaitingSet {paren(k)} {paren(xs[0][0])} {paren(xs[2][0])}")
+            return True
+        if isinstance(s, ast.Delete) and len(s.targets) == 1 and isinstance(s.targets[0], ast.Subscript) \
+                and ast.unparse(s.targets[0].value) == "self._awaiting":
+            k, kt = fn.ex(s.targets[0].slice, env, L)
+            if kt != NAT:
+                raise Unsupported("del _awaiting[...] key")
+            L.append(f"awaitingDel {paren(k)}")
+            return True
+        return False
+
+    def with_hook(fn, s, env, L):
+        if not isinstance(s, ast.AsyncWith) or len(s.items) != 1 or s.items[0].optional_vars is not None or not isinstance(s.items[0].context_expr, ast.Call):
+            return None
+        c = s.items[0].context_expr
+        f = ast.unparse(c.func)
+        if f == "self._send_semaphore" and not c.args and len(c.keywords) == 1 and c.keywords[0].arg == "priority":
+            p_, pt = fn.ex(c.keywords[0].value, env, L)
+            L.append(f"semAcquire {paren(fn.coerce(p_, pt, INT))}")
+            return ("wrap", ["semRelease"])
+        if f == "asyncio_timeout" and len(c.args) == 1 and not c.keywords and len(s.body) == 1 and isinstance(s.body[0], ast.Return) \
+                and isinstance(s.body[0].value, ast.Await) and isinstance(s.body[0].value.value, ast.Name):
+            call = ast.Call(func=ast.Name(id="__await_timeout__", ctx=ast.Load()), args=[s.body[0].value.value, c.args[0]], keywords=[])
+            new = ast.Return(value=call)
+            ast.copy_location(new, s)
+            ast.fix_missing_locations(new)
+            return ("rewrite", [new])
+        return None
+
+    return ModSpec(
+        module="bellows.ezsp.protocol",
+        ns="BV.Src.Cmd",
+        imports=["BV.Py.CmdEnv"],
+        opens=["BV.Py"],
+        unions={},
+        fns=[FnSpec("ProtocolHandler._get_command_priority", params={"name": STR}, ret=INT, lean_name="get_command_priority"),
+             FnSpec("ProtocolHandler._ezsp_frame", params={"name": STR, "args": VALS, "kwargs": KWVALS}, ret=BYTES, lean_name="ezsp_frame"),
+             FnSpec("ProtocolHandler.command", params={"name": STR, "args": VALS, "kwargs": KWVALS}, ret=VALS, allow_async=True,
+                    lean_name="command")],
+        state=st,
+        ext_expr=ext,
+        stmt_hook=stmt_hook,
+        with_hook=with_hook,
+    )
+
+
 MODULES = {"Ash": ash_spec, "Uart": uart_spec, "Mcast": multicast_spec, "Wd": watchdog_spec,
-           "HdrV4": hdr_v4_spec, "HdrV5": hdr_v5_spec, "HdrV8": hdr_v8_spec, "Proto": protocol_spec}
+           "HdrV4": hdr_v4_spec, "HdrV5": hdr_v5_spec, "HdrV8": hdr_v8_spec, "Proto": protocol_spec, "Cmd": command_spec}
 
 
 def translate_module(spec: ModSpec):
